@@ -22,8 +22,8 @@ theorem pfxValue_val (p : Pfx) : (Pfx.value p : Mag Rat).val = ((p.base : Nat) :
 theorem convert_ok {c c' : Conv Rat} {q r : Qty Rat} {t : UId}
     (h : CM.exec (convert q t) c = (.ok r, c')) :
     r.unit = t ∧
-    ∃ (c1 : Conv Rat) (plan : Plan Rat),
-      CM.exec (planConversion q.unit t) c1 = (.ok plan, c') ∧
+    ∃ (plan : Plan Rat),
+      CM.exec (planConversion q.unit t) { c with st := (c.st.unprefixedUnit q.unit).1 } = (.ok plan, c') ∧
       r.mag.val = applyPlanV ((Pfx.value (c.st.unit! q.unit).pfx : Mag Rat).val * q.mag.val)
         (plan.map PlanStep.toV) := by
   unfold convert at h
@@ -56,7 +56,7 @@ theorem convert_ok {c c' : Conv Rat} {q r : Qty Rat} {t : UId}
           simp only [ha, exec_pure, Prod.mk.injEq, Except.ok.injEq] at h
           obtain ⟨hr, hc⟩ := h
           subst hr; subst hc
-          refine ⟨rfl, _, plan, hp, ?_⟩
+          refine ⟨rfl, plan, rfl, ?_⟩
           rw [applyPlan_val plan ha, val_mul]
 
 /-- **C04, first sentence**: a conversion that returns, returns the requested unit. -/
